@@ -38,9 +38,11 @@ PARTS.update(LEGACY_PARTS)
 CAL_FIELDS = ("year_y", "year_g", "quarter", "month", "dom", "doy", "week_w", "week_u", "week_v")
 RESETTABLE = {"major": 0, "minor": 0, "patch": 0, "num": 0, "inc0": 0, "inc1": 1}
 ZERO = {"major": 0, "minor": 0, "patch": 0, "num": 0, "inc0": 0, "tag": "final"}
-TAGS = ("alpha", "beta", "rc", "post", "dev", "final")
-PYTAG = {"alpha": "a", "beta": "b", "rc": "rc", "post": "post", "dev": "dev", "final": ""}
-PYTAG_INV = {v: k for k, v in PYTAG.items()}
+# "preview" is an alias of rc that the TAG part accepts (not in the README's list, but a version that carries it is a valid
+# current version, and "TAG carried over unless --tag is given" applies to it like to any other)
+TAGS = ("alpha", "beta", "rc", "post", "dev", "final", "preview")
+PYTAG = {"alpha": "a", "beta": "b", "rc": "rc", "post": "post", "dev": "dev", "final": "", "preview": "rc"}
+PYTAG_INV = {v: k for k, v in PYTAG.items() if k != "preview"}
 
 
 class PatternSyntaxError(Exception):
